@@ -17,6 +17,9 @@ CORPUS = [
              "terminals\nLB: '{';\nRB: '}';\nLS: '[';\nRS: ']';\nComma: ',';\nColon: ':';\nTrue: 'true';\nStr: /\"[^\"]*\"/;\nNum: /-?\\d+/;\n",
      "{}[],:\"a1 true-\n"),
     ("ident", "S: Id+;\nterminals\nId: /[\\p{L}_][\\p{L}\\d_]*/;\n", "aλ_1 €\t"),
+    ("layout", "S: Id+;\nLayout: LayoutItem*;\nLayoutItem: WS | Comment;\nComment: '/*' Corncs '*/' | CommentLine;\nCorncs: Cornc*;\n"
+               "Cornc: Comment | NotComment | WS;\nterminals\nId: /[a-z]+/;\nWS: /\\s+/;\nCommentLine: /\\/\\/.*/;\nCS: '/*';\nCE: '*/';\n"
+               "NotComment: /((\\*[^\\/])|[^\\s*\\/]|\\/[^\\*])+/;\n", "ab /*/ \n"),
     ("emptyre", "S: A+;\nterminals\nA: /a*/;\n", "ab "),
 ]
 ODD = ["\u0000", "\u0001", "\u001b", "\u007f", "\u0085", " ", "é", "λ", "€", " ", "　", "𝄞", "﻿", "\U0010ffff", "\r", "\n", "\t", " "]
@@ -97,7 +100,7 @@ def run(rep, tier, seed):
     lr, glr = gen(rng, tier)
     fixed = lf.replay_known(rep, "C15", oracle)
     lr = fixed + lr
-    lf.run_cases(lr, extra_requests=lambda c: ["cert structural 0 0"])
+    lf.run_cases(lr, extra_requests=lambda c: ["cert lr-total"])
     lf.run_cases(glr, model=False)
     check(rep, lr, glr, proofs_ok)
 
@@ -110,7 +113,15 @@ def check(rep, lr, glr, proofs_ok):
                        "watchdog; distinct = (grammar, settings, lexer, input)")
     def scope(c):
         return tp.parse_dump(c.dump)["conflicts"] == 0
-    lf.evaluate(rep, lr, oracle, proofs_ok, PROP_MODULE, in_scope=scope, known_class=known_class)
+    def orc(c):
+        bad = oracle(c)
+        ex = getattr(c, "extra", None)
+        if ex:
+            rep.count("cert_lr_total_" + ("pass" if ex[0] == "1" else "FAIL"))
+            if ex[0] != "1":
+                bad.append((None, "Cert.structural/Cert.total fail on the compiler's table: hypotheses of C15_lr_no_panic not met"))
+        return bad
+    lf.evaluate(rep, lr, orc, proofs_ok, PROP_MODULE, in_scope=scope, known_class=known_class)
     lf.evaluate(rep, glr, oracle, True, PROP_MODULE, compare_model=False, known_class=known_class)
     for c in lr:
         for (a, _, _, _) in c.inputs:
@@ -124,5 +135,5 @@ def replay(rep, path):
     algo = p.get("algo", "LR")
     c = lf.Case(p["grammar"], p["settings"].split(" "), [(algo, p.get("partial", "0"), p.get("input", ""), {})], gram=None)
     glr = algo.startswith("GLR")
-    lf.run_cases([c], model=not glr)
+    lf.run_cases([c], model=not glr, extra_requests=None if glr else (lambda c: ["cert lr-total"]))
     check(rep, [] if glr else [c], [c] if glr else [], True)
